@@ -453,7 +453,7 @@ func C08(p *ir.Program, r *report.R) {
 		var slotErr *ssa.Alloc
 		ir.InstrsDeep(v, func(_ *ssa.Function, in ssa.Instruction) {
 			if st, ok := in.(*ssa.Store); ok {
-				if al, ok := st.Val.(*ssa.Alloc); ok && strings.HasPrefix(ir.Render(st.Addr), "&errRets[") && al.Comment == "err" {
+				if al, ok := st.Val.(*ssa.Alloc); ok && strings.HasPrefix(ir.Render(st.Addr), "&errRets[") && ir.LocalName(al.Parent(), al.Comment) == "err" {
 					slotErr = al
 				}
 			}
